@@ -399,12 +399,12 @@ def all_items():
                     it2 = dict(it, idempotent=True, stretch=True, config=it["config"] + " +idempotence")
                     items.append(it2)
         for shape in [(2,), (2, 2)]:
-            it = dict(type="power", kind=kind, shape=shape, complex=True, T=1.0, stretch=(shape == (2, 2)))
+            it = dict(type="power", kind=kind, shape=shape, complex=True, T=1.0, stretch=False)
             it["config"] = f"{kind} T=1.0 shape={shape} complex"
             items.append(it)
     for kind in ("antenna", "antenna-budget"):
         for shape, cplx in (((1, 2, 2), False), ((2, 2, 2), False), ((1, 2, 2), True)):
-            it = dict(type="power", kind=kind, shape=shape, complex=cplx, T=0.5, stretch=cplx)
+            it = dict(type="power", kind=kind, shape=shape, complex=cplx, T=0.5, stretch=False)
             it["config"] = f"{kind} T=0.5 shape={shape} {'complex' if cplx else 'real'}"
             items.append(it)
     for shape in ((3,), (2, 2)):
